@@ -113,6 +113,19 @@ CHECKS = {
                   "anything is emitted and is outside. No axioms.",
         technique="Rocq proof over all byte strings + byte-exact correspondence (vm_compute) + lexer oracle",
         ref="§C09"),
+    "C14": dict(
+        text="C14_delivery: for every history of add_writer/remove_writer/emitting calls/flush/teardown over any number "
+             "and mix of writers, each writer's received sequence is exactly (bytes, order, once) the lines emitted while "
+             "it was registered -- refinement of the writer-list model to a specification that tracks registration only "
+             "(induction over the history, duplicate-free list invariant). C14_file_after_flush / C14_teardown: visible "
+             "file content = concatenation of the lines of the current connection; teardown empties the list and "
+             "disconnects every registered writer once. Correspondence on real temp files, BytesIO, StringIO, UTF-8 and "
+             "latin-1 text file objects and recording writers; contents read back from disk.",
+        note=TB + "Modelled, not verified: Python file objects and OS file semantics (flush/close visibility), "
+                  "os.linesep. Writers that raise are outside the quantifier. A path file re-opened after teardown is "
+                  "truncated ('wb+'): asserted by the project's own test, so content is per connection. No axioms.",
+        technique="Rocq refinement proof over all histories + correspondence with real files/streams (vm_compute) + oracle",
+        ref="§C14"),
     "C17": dict(
         text="Theorems C17_conservation and C17_lines_are_cut (coq/props/C17.v) hold for every byte stream, every "
              "fragmentation into chunks of any size, every placement of read timeouts, after every number of "
